@@ -325,7 +325,7 @@ TARGETS = [
     dict(name="chacha20-avx2", inputs=stream_inputs, run=stream_run,
          a=dict(units=[CH + "ref/chacha20_ref.c"] + U, entry="stream_ref_xor_ic"),
          b=dict(units=[CH + "dolbeau/chacha20_dolbeau-avx2.c"] + U, entry="stream_ref_xor_ic"),
-         quick=[{"len": n} for n in (1, 64, 65, 128)], thorough=[{"len": n} for n in (255, 256, 257)]),
+         quick=[{"len": n} for n in (1, 64, 65, 128)], thorough=[{"len": n} for n in (255, 256, 257, 512, 513, 832)]),
     dict(name="salsa20-sse2", inputs=stream_inputs, run=stream_run,
          a=dict(units=[SA + "ref/salsa20_ref.c", "crypto_core/salsa/ref/core_salsa_ref.c"] + U, entry="stream_ref_xor_ic", undefs=["HAVE_AMD64_ASM"]),
          b=dict(units=[SA + "xmm6int/salsa20_xmm6int-sse2.c"] + U, entry="stream_sse2_xor_ic", undefs=["HAVE_AMD64_ASM"]),
@@ -333,7 +333,7 @@ TARGETS = [
     dict(name="salsa20-avx2", inputs=stream_inputs, run=stream_run,
          a=dict(units=[SA + "ref/salsa20_ref.c", "crypto_core/salsa/ref/core_salsa_ref.c"] + U, entry="stream_ref_xor_ic", undefs=["HAVE_AMD64_ASM"]),
          b=dict(units=[SA + "xmm6int/salsa20_xmm6int-avx2.c"] + U, entry="stream_avx2_xor_ic"),
-         quick=[{"len": n} for n in (1, 64, 65, 128)], thorough=[{"len": n} for n in (255, 256)]),
+         quick=[{"len": n} for n in (1, 64, 65, 128)], thorough=[{"len": n} for n in (255, 256, 512, 577)]),
     dict(name="scrypt-smix-sse2", inputs=smix_inputs, run=smix_run, sums=True,
          a=dict(units=[SCR + "nosse/pwhash_scryptsalsa208sha256_nosse.c"] + U, entry="smix", cflags=["-fno-inline-functions"]),
          b=dict(units=[SCR + "sse/pwhash_scryptsalsa208sha256_sse.c"] + U, entry="smix", cflags=["-fno-inline-functions"]),
